@@ -1,4 +1,140 @@
+(* C10 — property theorems only.  Each is closed by [exact] of a lemma proved under
+   C10/ and followed by Print Assumptions.  [kf] is the key function inducing the
+   comparator (any total preorder); arrays are lists of element ids; the repaired
+   code is modelled (fixes/C10-*.patch). *)
 From MV Require Import C10.Model C10.Proofs.
-Theorem quick_cutoff_ok : 3 <= quick_sort_cutoff.
+Local Open Scope Z_scope.
+
+(* ------------------------------------------------------------------ heap *)
+
+(* a freshly initialised heap is a valid empty heap *)
+Theorem heap_init_valid : forall kf c h, heap_init true c = Some h ->
+  heap_ok kf h /\ hsize h = 0%nat /\ hcap h = (if (c =? 0)%nat then 8%nat else c).
+Proof. exact heap_init_ok. Qed.
+Print Assumptions heap_init_valid.
+
+(* insert (including growth by doubling, any allocation outcome): the sift-up loop
+   terminates; on success the heap is valid and holds exactly the old entries plus
+   the new one; on refusal nothing changed; no refusal while there is room *)
+Theorem heap_inv_insert : forall kf alloc h k v, heap_ok kf h ->
+  exists h' b, heap_insert kf alloc h k v = Some (h', b) /\
+    (b = false -> h' = h) /\
+    (b = true -> heap_ok kf h' /\ hsize h' = S (hsize h) /\ Permutation (contents h') ((k, v) :: contents h)) /\
+    ((hsize h < hcap h)%nat -> b = true /\ hcap h' = hcap h).
+Proof. exact heap_insert_ok. Qed.
+Print Assumptions heap_inv_insert.
+
+(* extract on a non-empty heap: the sift-down loop terminates, returns the root, which
+   is a minimum of the contents; the rest is a valid heap holding exactly the other entries *)
+Theorem heap_inv_extract_min : forall kf h, heap_ok kf h -> (1 <= hsize h)%nat ->
+  exists h', heap_extract kf h = Some (h', Some (getn (nodes h) 1)) /\
+    heap_ok kf h' /\ hsize h' = (hsize h - 1)%nat /\ hcap h' = hcap h /\
+    Permutation (contents h) (getn (nodes h) 1 :: contents h') /\
+    (forall x, In x (contents h) -> nkey kf (getn (nodes h) 1) <= nkey kf x).
+Proof. exact heap_extract_ok. Qed.
+Print Assumptions heap_inv_extract_min.
+
+(* remove of the node at ANY position 1..size, the last slot included: the combined
+   up/down loop terminates, exactly that entry leaves, the rest is a valid heap *)
+Theorem heap_inv_remove_any_position : forall kf h idx, heap_ok kf h -> (1 <= idx <= hsize h)%nat ->
+  exists h', heap_remove kf h idx = Some (h', Some (getn (nodes h) idx)) /\
+    heap_ok kf h' /\ hsize h' = (hsize h - 1)%nat /\ hcap h' = hcap h /\
+    Permutation (contents h) (getn (nodes h) idx :: contents h').
+Proof. exact heap_remove_ok. Qed.
+Print Assumptions heap_inv_remove_any_position.
+
+(* a node pointer outside nodes[1..size] is refused and nothing changes *)
+Theorem heap_remove_outside_refused : forall kf h idx, (idx = 0 \/ hsize h < idx)%nat ->
+  heap_remove kf h idx = Some (h, None).
+Proof. exact heap_remove_outside. Qed.
+Print Assumptions heap_remove_outside_refused.
+
+(* root returns a minimum entry of the contents *)
+Theorem heap_root_is_min : forall kf h, heap_ok kf h -> (1 <= hsize h)%nat ->
+  heap_root h = Some (getn (nodes h) 1) /\ In (getn (nodes h) 1) (contents h) /\
+  forall x, In x (contents h) -> nkey kf (getn (nodes h) 1) <= nkey kf x.
+Proof. exact heap_root_min. Qed.
+Print Assumptions heap_root_is_min.
+
+Theorem heap_empty_yields_nothing : forall kf h, hsize h = 0%nat ->
+  heap_root h = None /\ heap_extract kf h = Some (h, None).
+Proof. exact heap_root_empty. Qed.
+Print Assumptions heap_empty_yields_nothing.
+
+(* find returns a node of the heap whose key compares equal, or NULL only when none does *)
+Theorem heap_find_locates : forall kf h data,
+  let r := heap_find kf h data in
+  (r = 0%nat /\ forall x, In x (contents h) -> (hsize h < length (nodes h))%nat -> nkey kf x <> kf data) \/
+  ((1 <= r <= hsize h)%nat /\ nkey kf (getn (nodes h) r) = kf data).
+Proof. exact heap_find_ok. Qed.
+Print Assumptions heap_find_locates.
+
+(* repeated extract yields every entry, in non-decreasing key order *)
+Theorem heap_yields_sorted : forall kf n h, heap_ok kf h -> hsize h = n ->
+  exists l, drain kf n h = Some l /\ length l = n /\ StronglySorted (nle kf) l /\ Permutation l (contents h).
+Proof. exact drain_sorted. Qed.
+Print Assumptions heap_yields_sorted.
+
+(* ----------------------------------------------------------------- sorts *)
+(* every list length (0 and 1 included), every key pattern *)
+
+Theorem insertion_sorted : forall kf a, Sorted (kle kf) (insertion_sort kf a).
+Proof. exact insertion_sorted_l. Qed.
+Print Assumptions insertion_sorted.
+Theorem insertion_permutation : forall kf a, Permutation a (insertion_sort kf a).
+Proof. exact insertion_permutation_l. Qed.
+Print Assumptions insertion_permutation.
+
+Theorem shell_terminates : forall kf a, shell_sort kf a <> None.
+Proof. exact shell_total_l. Qed.
+Print Assumptions shell_terminates.
+Theorem shell_sorted : forall kf a p, shell_sort kf a = Some p -> Sorted (kle kf) p.
+Proof. exact shell_sorted_l. Qed.
+Print Assumptions shell_sorted.
+Theorem shell_permutation : forall kf a p, shell_sort kf a = Some p -> Permutation a p.
+Proof. exact shell_permutation_l. Qed.
+Print Assumptions shell_permutation.
+
+(* heap sort: arrays below 2^31 - 1 elements (larger ones are refused with `false`) *)
+Theorem heap_sort_terminates : forall kf a, cap_is_valid (length a + 1) = true ->
+  exists p, heap_sort kf true a = Some (p, true).
+Proof. exact heap_sort_total_l. Qed.
+Print Assumptions heap_sort_terminates.
+Theorem heap_sort_sorted : forall kf a p, cap_is_valid (length a + 1) = true ->
+  heap_sort kf true a = Some (p, true) -> Sorted (kle kf) p.
+Proof. exact heap_sort_sorted_l. Qed.
+Print Assumptions heap_sort_sorted.
+Theorem heap_sort_permutation : forall kf a p, cap_is_valid (length a + 1) = true ->
+  heap_sort kf true a = Some (p, true) -> Permutation a p.
+Proof. exact heap_sort_permutation_l. Qed.
+Print Assumptions heap_sort_permutation.
+
+Theorem merge_terminates : forall kf a, exists p, merge_sort kf true a = Some (p, true).
+Proof. exact merge_total_l. Qed.
+Print Assumptions merge_terminates.
+Theorem merge_sorted : forall kf a p, merge_sort kf true a = Some (p, true) -> Sorted (kle kf) p.
+Proof. exact merge_sorted_l. Qed.
+Print Assumptions merge_sorted.
+Theorem merge_permutation : forall kf a p, merge_sort kf true a = Some (p, true) -> Permutation a p.
+Proof. exact merge_permutation_l. Qed.
+Print Assumptions merge_permutation.
+
+(* side condition on the cutoff constant re-extracted from sort.c on every run *)
+Theorem quick_cutoff_ok : (3 <= quick_sort_cutoff)%nat.
 Proof. exact cutoff_ok. Qed.
 Print Assumptions quick_cutoff_ok.
+
+(* for any cutoff >= 3: no scan leaves the array (result is not None), fuel suffices *)
+Theorem quick_terminates_in_bounds_any_cutoff : forall cutoff, (3 <= cutoff)%nat ->
+  forall kf a, quick_sort_c kf cutoff a <> None.
+Proof. exact quick_total_c. Qed.
+Print Assumptions quick_terminates_in_bounds_any_cutoff.
+Theorem quick_terminates_in_bounds : forall kf a, quick_sort kf a <> None.
+Proof. exact quick_total_l. Qed.
+Print Assumptions quick_terminates_in_bounds.
+Theorem quick_sorted : forall kf a p, quick_sort kf a = Some p -> Sorted (kle kf) p.
+Proof. exact quick_sorted_l. Qed.
+Print Assumptions quick_sorted.
+Theorem quick_permutation : forall kf a p, quick_sort kf a = Some p -> Permutation a p.
+Proof. exact quick_permutation_l. Qed.
+Print Assumptions quick_permutation.
